@@ -87,6 +87,14 @@ func (e *MockEngine) Mark() int {
 	return len(e.Calls)
 }
 
+func (e *MockEngine) truncate(mark int) {
+	e.mu.Lock()
+	if mark <= len(e.Calls) {
+		e.Calls = e.Calls[:mark]
+	}
+	e.mu.Unlock()
+}
+
 func (e *MockEngine) CallsSince(mark int) []EngineCall {
 	e.mu.Lock()
 	defer e.mu.Unlock()
